@@ -82,7 +82,12 @@ pub fn run_hist(prop: &str, seed: u64, index: usize, _tier: Tier) -> RunReport {
         "C01" | "C05" | "C15" | "C16" => (Profile::General, true, 0),
         _ => (Profile::General, false, 0),
     };
-    let (case, d) = generate(seed, profile, buggify, n_foreign);
+    let (case, d) = if prop == "C17" {
+        // keep issuing calls after a roll-over that failed because a foreign entry occupies the next WAL name
+        crate::gen::generate_opts(seed, profile, buggify, n_foreign, true, true)
+    } else {
+        generate(seed, profile, buggify, n_foreign)
+    };
     let mut rep = RunReport::default();
     rep.evaluations = 1;
     rep.digest = d.digest.0;
